@@ -118,27 +118,28 @@ std::string snapshot()
         R->doneCnt[static_cast<std::size_t>(kv.first)] == 0)
       R->futureEarly++;
   char b[400];
-  std::snprintf(b, sizeof b, "snap q=%zu w=%zu sd=%d acc=%d life=%d act=%zu busy=%zu cr=%d ex=%d wt=%d id=%d A=%ld D=%ld S=%ld F=%ld st=%ld dn=%ld",
+  std::snprintf(b, sizeof b, "snap q=%zu w=%zu sd=%d acc=%d life=%d act=%zu busy=%zu cr=%d ex=%d wt=%d id=%d st=%ld dn=%ld",
                 p._tasks.size(), w, p._shutdown.load() ? 1 : 0, p._accepting.load() ? 1 : 0, static_cast<int>(p._lifecycleState.load()),
                 p._activeThreads.load(), p._busyThreads.load(), p._threadsCreated.load(), p._threadsExited.load(), p._waitingThreads.load(),
-                R->nextId, R->nAcc, R->nD, R->nS, R->nF, R->nStart, R->nDone);
+                R->nextId, R->nStart, R->nDone);
   return b;
 }
 
 struct YieldRec { std::string tag; int n; };
 std::vector<YieldRec>* g_yields = nullptr;
 
-// harness yield: an explicit DetSched scheduling point; when this thread is scheduled again it takes a snapshot of the real
-// object in the same atomic step.  `pre` runs in that step before the snapshot (id allocation).
-template <typename F> void vp(const char* tag, int n, F&& pre)
+// harness yield: an explicit DetSched scheduling point.  When this thread is scheduled again it first takes a snapshot of
+// the real object (= the state before this step's own code), then runs `pre` (id allocation), which returns the number
+// reported with the event.
+template <typename F> void vp(const char* tag, F&& pre)
 {
   ds::yield_point(tag);
-  pre();
-  g_yields->push_back(YieldRec{tag, n});
   R->snaps.push_back(snapshot());
+  int n = pre();
+  g_yields->push_back(YieldRec{tag, n});
   R->seq++;
 }
-void vp(const char* tag, int n) { vp(tag, n, [] {}); }
+void vp(const char* tag, int n) { vp(tag, [n] { return n; }); }
 
 void hookPoint(const char* tag)
 {
@@ -152,12 +153,12 @@ void doCall(const Act& a)
 {
   int id = -1;
   bool acceptingAtCall = true;
-  vp("call", R->nextId, [&] {
+  vp("call", [&] {
     id = R->nextId++;
     grow(id);
     acceptingAtCall = R->pool->_accepting.load();
+    return id;
   });
-  // NOTE: vp() recorded n = nextId before allocation == id
   ThreadPool& p = *R->pool;
   int bodyIx = a.body;
   char res = 'a';
